@@ -138,6 +138,23 @@ def run(repo: Repo, chk: Check, thorough: bool = False) -> None:
                f'e.g. a one-element tuple written `(a,)` is displayed as `(a)`, which is not a tuple', repo.loc(astf.mod, an))
     chk.require('R15.2', 6)
 
+    # a tuple used as an index may be written without parentheses only when it has two or more elements: `x[a, b]`; `x[()]` needs the
+    # parentheses and `x[a,]` the comma, otherwise the text reads back as something else (`Tuple[]` is not even valid)
+    sb = repo.func(f'{COL}._colorize_ast_subscript')
+    cfsb = CFG(sb)
+    bare = [c for c in calls_in(sb) if call_name(c) == '_multiline' and any(isinstance(a, ast.Attribute) and a.attr == 'elts' for a in c.args)]
+    if not bare:
+        raise AnalysisError('R15.2: the parenthesis-free rendering of a tuple index was not found in _colorize_ast_subscript')
+    for c in bare:
+        has_suffix = any(k.arg == 'suffix' and const_str(k.value) and ',' in (const_str(k.value) or '') for k in c.keywords)
+        counted = any(isinstance(t, ast.Compare) and any(isinstance(x, ast.Call) and call_name(x) == 'len' and x.args and norm(x.args[0]).endswith('.elts') for x in ast.walk(t))
+                      for t, pol in cfsb.dominating_tests(cfsb.stmt_of(c)))
+        okc = counted
+        chk.ob('R15.2', f'{COL}._colorize_ast_subscript :: bare tuple index only by element count #{bare.index(c) + 1}', okc,
+               ('one element: trailing comma kept' if has_suffix else 'two or more elements') if okc else
+               f'`{norm(c)[:60]}` drops the parentheses of every tuple index: `Tuple[()]` is displayed as `Tuple[]` (invalid), `m[0,]` as `m[0]` (an int index, '
+               'not a tuple)', repo.loc(sb.mod, c))
+
     # ------------------------------------------------------------------ R15.3
     init = repo.func(f'{DELIM}.__init__')
     enable = [n for n in init.walk() if isinstance(n, ast.Assign) and any(dotted(t) == 'self.discard' for t in n.targets)
